@@ -189,6 +189,22 @@ CHECKS = {
               "initial conditions, fix: 930e72c)."),
         technique="TLA+ configuration lattice + exact step terms exported by TLC, evaluated by a generic 50-digit evaluator against every representation",
     ),
+    "C02": dict(
+        cat="exploration",
+        text=("specs/OdeFreq.tla: every legal configuration - block layout (0-1 rigid-body, 1-2 elastic, 0-1 residual-flexibility "
+              "equations) x the 8 incrb subsets plus the deprecated integers x rf_disp_only x {SolveUnc.fsolve, FreqDirect.fsolve} x "
+              "diagonal / congruence-coupled x mass None/vector/matrix x pre_eig x complex stiffness (2508 configurations) - with "
+              "the EXACT-ZERO pattern (which (block, quantity, 0 Hz) entries must be exactly 0) and the response as terms "
+              "(F/(k - W^2 m + iWb), v = iWd, a = -W^2 d; rb a = F/m, v = a/(iW), d = -a/W^2; rf static). Each configuration is "
+              "instantiated with seeded systems and complex force spectra at {0 Hz where in the solver's domain, below, at, above "
+              "resonance}: zero pattern exact, values vs the evaluated terms (1e-9), so both solvers and every representation are "
+              "tied to one definition. solvepsd = sum_i PSD_i |H_i|^2 from the terms, rms = sqrt(trapezoid)."),
+        ref="4/C02",
+        note=("Trusted: TLC, generic term evaluator (numpy complex). Rigid-body equations undamped (modal-space rb); resonance is "
+              "sampled on damped modes only. One genuine defect repaired (complex uncoupled system with rb and given mass, fix: "
+              "f2129c0)."),
+        technique="TLA+ option lattice with exact-zero pattern + response terms (TLC) replayed against both solvers",
+    ),
 }
 
 NOT_YET = {}
